@@ -1960,13 +1960,57 @@ func runTokenERC20(run *ev.Run, c int) {
 	rng := run.Rng
 	evm := newTkEVM()
 	bal := sdk.NewCoins(sdk.NewCoin(rig.BondDenom, toInt(pow2(150))), sdk.NewCoin(tkIBCDenom, toInt(pow2(100))))
-	r := rig.New(rig.Options{Seed: fmt.Sprintf("tk10e-%d-%d", run.Seed, c), NumAccounts: 6, Balances: bal, InflationOff: true, EVM: evm, ExtraStoreKeys: evm.storeKeys(), SubSecond: c%2 == 1})
+	// odd cases: the genesis already holds a token bound to an ERC20 contract, its address written in lower case (genesis
+	// validation accepts any hex spelling); the harness EVM adopts a contract at that address in the first block
+	const gbContract = "0xabcdef0123456789abcdef0123456789abcdef01"
+	genesisBorn := c%2 == 1
+	var mut func(cdc codec.Codec, gs map[string]json.RawMessage)
+	if genesisBorn {
+		mut = func(cdc codec.Codec, gs map[string]json.RawMessage) {
+			var ag authtypes.GenesisState
+			cdc.MustUnmarshalJSON(gs[authtypes.ModuleName], &ag)
+			accs, err := authtypes.UnpackAccounts(ag.Accounts)
+			if err != nil || len(accs) == 0 {
+				return
+			}
+			sort.Slice(accs, func(i, j int) bool { return accs[i].GetAccountNumber() < accs[j].GetAccountNumber() })
+			owner := accs[0].GetAddress().String()
+			var st v1.GenesisState
+			cdc.MustUnmarshalJSON(gs[tokentypes.ModuleName], &st)
+			st.Tokens = append(st.Tokens, v1.Token{Symbol: "gborn", Name: "genesis born", Scale: 6, MinUnit: "ugborn", InitialSupply: 1000000, MaxSupply: 1000000000, Mintable: true, Owner: owner, Contract: gbContract})
+			gs[tokentypes.ModuleName] = cdc.MustMarshalJSON(&st)
+			var bg banktypes.GenesisState
+			cdc.MustUnmarshalJSON(gs[banktypes.ModuleName], &bg)
+			coins := sdk.NewCoins(sdk.NewCoin("ugborn", sdkmath.NewInt(1000000).MulRaw(1000000)))
+			for i := range bg.Balances {
+				if bg.Balances[i].Address == owner {
+					bg.Balances[i].Coins = bg.Balances[i].Coins.Add(coins...)
+				}
+			}
+			bg.Supply = bg.Supply.Add(coins...)
+			gs[banktypes.ModuleName] = cdc.MustMarshalJSON(&bg)
+		}
+	}
+	r := rig.New(rig.Options{Seed: fmt.Sprintf("tk10e-%d-%d", run.Seed, c), NumAccounts: 6, Balances: bal, InflationOff: true, EVM: evm, ExtraStoreKeys: evm.storeKeys(), SubSecond: c%2 == 1, GenesisMutator: mut})
 	evm.ak = r.App.AccountKeeper
 	evm.unsupported[tkHex(r.Accounts[len(r.Accounts)-1].Addr)] = true
 	g := newTkGen(run, r, evm, true)
 	r.Snapshot = g.snap
 	d := &tkC10{run: run, r: r, g: g, evm: evm}
 	d.installOps()
+	if genesisBorn {
+		r.Ops["tk-evm-adopt"] = func(ctx sdk.Context, raw json.RawMessage) error {
+			bz, _ := json.Marshal(tkContractMeta{Name: "genesis born", Symbol: "gborn", Scale: 6, Owner: common.BytesToAddress(authtypes.NewModuleAddress(tokentypes.ModuleName)).Hex()})
+			ctx.KVStore(evm.key).Set(tkKeyMeta(common.HexToAddress(gbContract)), bz)
+			return nil
+		}
+		if br := r.DeliverBlock(time.Second, []rig.Tx{r.InjectOp(r.Acc(1), &tkTag{Kind: "setup"}, "tk-evm-adopt", map[string]string{})}); br.FinalErr != nil || len(br.Txs) != 1 || !br.Txs[0].OK() {
+			run.Inconc("the harness EVM could not adopt the genesis-born contract")
+			return
+		}
+		g.resync()
+		run.Count("genesis-born-erc20-binding", 1)
+	}
 	blocks := tierN(run.Tier, 160, 600)
 	script := [][]string{
 		{"erc20-switch", "issue", "issue", "issue"}, {"issue", "issue-shadow", "issue-shadow", "send", "send"}, {"deploy", "deploy", "send"}, {"deploy", "to-erc20", "to-erc20"},
@@ -2797,13 +2841,13 @@ func (w *tokenWorkload) Attach(run *ev.Run, r *rig.Rig) {
 func (w *tokenWorkload) Next(block int) []rig.Tx {
 	g := w.g
 	g.begin()
-	kinds := []string{"issue", "mint", "edit", "burn", "transfer", "send", "deploy", "to-erc20", "from-erc20", "issue-dup", "mint-hostile"}
-	weights := []int{4, 6, 4, 6, 2, 4, 2, 4, 4, 1, 1}
+	kinds := []string{"issue", "mint", "edit", "burn", "transfer", "send", "deploy", "to-erc20", "from-erc20", "issue-dup", "mint-hostile", "issue-shadow"}
+	weights := []int{4, 6, 4, 6, 2, 4, 2, 4, 4, 1, 1, 2}
 	if len(g.ownedTokens()) >= 12 {
-		weights[0] = 0
+		weights[0], weights[11] = 0, 0
 	}
 	if len(g.ownedTokens()) == 0 {
-		weights = []int{1, 0, 0, 0, 0, 0, 0, 0, 0, 0, 0}
+		weights = []int{1, 0, 0, 0, 0, 0, 0, 0, 0, 0, 0, 0}
 	}
 	if w.NoERC20 {
 		weights[6], weights[7], weights[8] = 0, 0, 0
